@@ -31,10 +31,11 @@ type c16item struct {
 type c16base struct {
 	name  string
 	items []c16item // canonical order: hoistable first, then ordered
+	noGo  bool      // the output shows struct references, which goatlang renders with field names by design (C14): not compared with the Go toolchain
 }
 
 func c16bases(thorough bool) []c16base {
-	b1 := c16base{"types", []c16item{
+	b1 := c16base{name: "types", items: []c16item{
 		{src: "type A struct {\n\tb *B\n\tn int\n}\n"},
 		{src: "type B struct {\n\tv int\n}\n"},
 		{src: "func (a *A) Sum() int {\n\treturn a.n + a.b.Get() + K\n}\n"},
@@ -48,7 +49,7 @@ func c16bases(thorough bool) []c16base {
 		{src: "var g = s0 + helper(5)\n", ordered: true},
 		{src: "func init() {\n\tg += s0 * 100\n}\n", ordered: true},
 	}}
-	b2 := c16base{"functions", []c16item{
+	b2 := c16base{name: "functions", items: []c16item{
 		{src: "func even(n int) bool {\n\tif n == 0 {\n\t\treturn true\n\t}\n\treturn odd(n - 1)\n}\n"},
 		{src: "func odd(n int) bool {\n\tif n == 0 {\n\t\treturn false\n\t}\n\treturn even(n - 1)\n}\n"},
 		{src: "func scale(x int) int {\n\treturn x*Big + len(strconv.Itoa(x)) - 1\n}\n", imports: []string{"strconv"}},
@@ -61,7 +62,7 @@ func c16bases(thorough bool) []c16base {
 		{src: "var second = count() + scale(first)\n", ordered: true},
 		{src: "func init() {\n\tcalls += 10\n}\n", ordered: true},
 	}}
-	b3 := c16base{"interfaces", []c16item{
+	b3 := c16base{name: "interfaces", items: []c16item{
 		{src: "type Shape interface {\n\tArea() int\n}\n"},
 		{src: "type Sq struct {\n\ts int\n}\n"},
 		{src: "type Rect struct {\n\tw int\n\th int\n}\n"},
@@ -74,7 +75,7 @@ func c16bases(thorough bool) []c16base {
 		{src: "func init() {\n\tall = append(all, &Sq{s: 1})\n}\n", ordered: true},
 	}}
 	// function-local declarations named like package-level ones, and the same method name on two types and as a function
-	b4 := c16base{"locals", []c16item{
+	b4 := c16base{name: "locals", items: []c16item{
 		{src: "type Meter struct {\n\tn int\n}\n"},
 		{src: "type Gauge struct {\n\tn int\n}\n"},
 		{src: "func label() string {\n\treturn \"pkg\"\n}\n"},
@@ -85,13 +86,24 @@ func c16bases(thorough bool) []c16base {
 		{src: "var m = &Meter{n: 1}\n", ordered: true},
 		{src: "var g = &Gauge{n: 2}\n", ordered: true},
 	}}
+	// function literals with same-named local types in variable initialisers (in a multi-file layout two of them can
+	// start at the same line and column of different files)
+	b5 := c16base{name: "literals", noGo: true, items: []c16item{
+		{src: "type K struct {\n\tn int\n}\n"},
+		{src: "func (k *K) N() int {\n\treturn k.n\n}\n"},
+		{src: "func show() string {\n\treturn fa() + \" \" + fb() + \" \" + fmt.Sprint(k0.N())\n}\n", fmt: true},
+		{src: "func Main() {\n\tfmt.Println(show())\n}\n", fmt: true},
+		{src: "var fa = func() string {\n\ttype T struct {\n\t\tx int\n\t}\n\tv := &T{x: 1}\n\treturn fmt.Sprint(v)\n}\n", fmt: true, ordered: true},
+		{src: "var fb = func() string {\n\ttype T struct {\n\t\ty string\n\t}\n\tv := &T{y: \"b\"}\n\treturn fmt.Sprint(v)\n}\n", fmt: true, ordered: true},
+		{src: "var k0 = &K{n: 3}\n", ordered: true},
+	}}
 	if !thorough {
 		// quick: 5 hoistable + 3..4 ordered items per package
 		b1.items = append(append([]c16item{}, b1.items[0], b1.items[1], b1.items[2], b1.items[3], c16item{src: "func mk(n int) *A {\n\treturn &A{b: &B{v: n * 2}, n: n}\n}\n"}, c16item{src: "func Main() {\n\tfmt.Println(s0, a0.b.Get(), K, a0.Sum())\n}\n", fmt: true}), b1.items[7], b1.items[8], b1.items[9], c16item{src: "func init() {\n\ts0 += 100\n}\n", ordered: true})
 		// (all items of the functions package are kept in quick: a parameter named like another top-level function needs them)
 		b3.items = append(append([]c16item{}, b3.items[1], b3.items[3], b3.items[0], b3.items[5], c16item{src: "func Main() {\n\tfmt.Println(total(all), len(all), sum)\n}\n", fmt: true}), c16item{src: "var all = []Shape{&Sq{s: 2}, &Sq{s: 3}}\n", ordered: true}, b3.items[8], c16item{src: "func init() {\n\tall = append(all, &Sq{s: 1})\n}\n", ordered: true})
 	}
-	return []c16base{b1, b2, b3, b4}
+	return []c16base{b1, b2, b3, b4, b5}
 }
 
 // an arrangement: order = permutation of item indexes; files[i] = file of the i-th item in that order
@@ -151,8 +163,14 @@ func c16render(b c16base, pkg string, a c16arr) map[string]string {
 func c16runArr(b c16base, a c16arr) string {
 	files := c16render(b, "w", a)
 	if a.Imported {
-		// the package under test is not the root: a root package imports it and calls its Main
-		files["root/root.go"] = "package root\n\nimport \"w\"\n\nfunc Main() {\n\tw.Main()\n}\n"
+		// the package under test is not the root: a root package imports it, from an import path that differs from
+		// the package name, and calls its Main
+		deep := map[string]string{}
+		for k, v := range files {
+			deep["lib/"+k] = v
+		}
+		files = deep
+		files["root/root.go"] = "package root\n\nimport \"lib/w\"\n\nfunc Main() {\n\tw.Main()\n}\n"
 		res := goat.RunMain(files, "root", "root.Main")
 		if res.Failed() {
 			return res.String()
@@ -239,7 +257,7 @@ func c16run(r *report.Run) {
 		multi = 300
 	}
 	stride := 0
-	r.Rule(fmt.Sprintf("[%d evenly spread arrangements per package for the file dimension] four base packages (struct types referring to later types with methods declared before them; mutually recursive functions, iota constants and chained initialisers; an interface with two implementations; function-local types named like package-level functions and types inside same-named methods of two types and a function of that name): all permutations of the hoistable items x all interleavings of the ordered items (constants, initialisers, init keep their relative order) in one file, and for %d arrangements per package all assignments of its items to three files with the ordered items assigned monotonically, the files named by three schemes in turn (among them test.go, latest.go, contest.go, Test.go, tests.go: names that merely resemble a test file); non-trivial = arrangement that differs from the canonical one", multi, multi))
+	r.Rule(fmt.Sprintf("[%d evenly spread arrangements per package for the file dimension] five base packages (function literals with same-named local types in variable initialisers; struct types referring to later types with methods declared before them; mutually recursive functions, iota constants and chained initialisers; an interface with two implementations; function-local types named like package-level functions and types inside same-named methods of two types and a function of that name): all permutations of the hoistable items x all interleavings of the ordered items (constants, initialisers, init keep their relative order) in one file, and for %d arrangements per package all assignments of its items to three files with the ordered items assigned monotonically, the files named by three schemes in turn (among them test.go, latest.go, contest.go, Test.go, tests.go: names that merely resemble a test file); non-trivial = arrangement that differs from the canonical one", multi, multi))
 	r.Assume("the canonical arrangement (types, methods, functions, constants, variables, init in one file) is the reference; the Go toolchain compiles and runs it and a spread of other arrangements", "ordered items are assigned to files monotonically, so their relative order after the loader's sorted-name concatenation is the source order (the one constraint the property states)")
 	cache := oracle.OpenCache("c16")
 	defer cache.Save()
@@ -260,6 +278,9 @@ func c16run(r *report.Run) {
 			continue
 		}
 		addGo := func(a c16arr) {
+			if b.noGo {
+				return
+			}
 			pkg := fmt.Sprintf("z%d_%04d", bi, len(goProgs))
 			files := map[string]string{}
 			for name, src := range c16render(b, pkg, a) {
